@@ -39,7 +39,7 @@ from elementpath.etree import defuse_xml
 from elementpath.xpath_nodes import XPathNode, ElementNode, NamespaceNode, \
     DocumentNode, EtreeElementNode, SchemaElementNode
 from elementpath.tree_builders import get_node_tree
-from elementpath.xpath_tokens import XPathToken, ValueToken, XPathFunction
+from elementpath.xpath_tokens import XPathToken, ValueToken, XPathFunction, XPathArray
 from elementpath.serialization import get_serialization_params, serialize_to_xml, \
     serialize_to_json
 from elementpath.xpath_context import XPathContext, XPathSchemaContext
@@ -118,28 +118,38 @@ class _InlineFunction(XPathFunction):
             raise self.error('XPTY0004', msg.format(len(self.varnames), nargs))
         super().check_arguments_number(nargs)
 
+    def convert_argument(self, v: Any, varname: str, sequence_type: str,
+                         context: Optional[XPathContext] = None) -> Any:
+        """The function conversion rules for the value of a parameter."""
+        if isinstance(v, XPathToken) and not isinstance(v, XPathFunction):
+            v = v.evaluate(context)
+
+        if isinstance(v, XPathFunction) and sequence_type.startswith('function('):
+            function_test = sequence_type
+            if function_test[:-1] == 'function(*)':
+                function_test = function_test[:-1]  # function(*)?, function(*)*, function(*)+
+            if not v.match_function_test(function_test, as_argument=True):
+                msg = "argument {!r}: {} does not match sequence type {}"
+                raise self.error('XPTY0004', msg.format(varname, v, sequence_type))
+
+        elif not match_sequence_type(v, sequence_type, self.parser):
+            if sequence_type.startswith('xs:') and any(
+                    isinstance(x, XPathFunction) and not isinstance(x, XPathArray)
+                    for x in (v if isinstance(v, list) else [v])):
+                raise self.error('FOTY0013', "a function item cannot be atomized")
+
+            _v = self.cast_to_primitive_type(v, sequence_type)
+            if not match_sequence_type(_v, sequence_type, self.parser):
+                msg = "argument '${}': {} does not match sequence type {}"
+                raise self.error('XPTY0004', msg.format(varname, v, sequence_type))
+            return _v
+        return v
+
     def __call__(self, *args: ta.FunctionArgType,
                  context: Optional[XPathContext] = None) -> Any:
 
         def get_argument(v: Any) -> Any:
-            if isinstance(v, XPathToken) and not isinstance(v, XPathFunction):
-                v = v.evaluate(context)
-
-            if isinstance(v, XPathFunction) and sequence_type.startswith('function('):
-                function_test = sequence_type
-                if function_test[:-1] == 'function(*)':
-                    function_test = function_test[:-1]  # function(*)?, function(*)*, function(*)+
-                if not v.match_function_test(function_test, as_argument=True):
-                    msg = "argument {!r}: {} does not match sequence type {}"
-                    raise self.error('XPTY0004', msg.format(varname, v, sequence_type))
-
-            elif not match_sequence_type(v, sequence_type, self.parser):
-                _v = self.cast_to_primitive_type(v, sequence_type)
-                if not match_sequence_type(_v, sequence_type, self.parser):
-                    msg = "argument '${}': {} does not match sequence type {}"
-                    raise self.error('XPTY0004', msg.format(varname, v, sequence_type))
-                return _v
-            return v
+            return self.convert_argument(v, varname, sequence_type, context)
 
         sequence_type: str
         self.check_arguments_number(len(args))
